@@ -98,11 +98,17 @@ pub struct BatchingAdapter<A> {
     pub rng: Rc<RefCell<Rng>>,
     /// also materialise every neighbor iterator eagerly
     pub eager_neighbors: bool,
+    /// which resolvers read ahead: 1 = starting vertices, 2 = properties, 4 = neighbors, 8 = coercions
+    pub which: u8,
 }
 
 impl<A> BatchingAdapter<A> {
     pub fn new(inner: A, mode: Mode, seed: u64, eager_neighbors: bool) -> Self {
-        BatchingAdapter { inner, mode, rng: Rc::new(RefCell::new(Rng::new(seed))), eager_neighbors }
+        BatchingAdapter { inner, mode, rng: Rc::new(RefCell::new(Rng::new(seed))), eager_neighbors, which: 15 }
+    }
+    pub fn only(mut self, which: u8) -> Self {
+        self.which = which;
+        self
     }
     fn fork(&self) -> Rng {
         self.rng.borrow_mut().fork()
@@ -124,6 +130,9 @@ where
         // the source itself is never read ahead here: C03 is about non-buffering sources, and the
         // schedules of C02 concern how resolvers pull *contexts*
         let inner = self.inner.resolve_starting_vertices(edge_name, parameters, resolve_info);
+        if self.which & 1 == 0 {
+            return inner;
+        }
         Box::new(Chunker::new(inner, self.mode, self.fork()))
     }
 
@@ -135,6 +144,9 @@ where
         resolve_info: &ResolveInfo,
     ) -> ContextOutcomeIterator<'static, V, FieldValue> {
         let inner = self.inner.resolve_property(contexts, type_name, property_name, resolve_info);
+        if self.which & 2 == 0 {
+            return inner;
+        }
         Box::new(Chunker::new(inner, self.mode, self.fork()))
     }
 
@@ -147,6 +159,9 @@ where
         resolve_info: &ResolveEdgeInfo,
     ) -> ContextOutcomeIterator<'static, V, VertexIterator<'static, Self::Vertex>> {
         let inner = self.inner.resolve_neighbors(contexts, type_name, edge_name, parameters, resolve_info);
+        if self.which & 4 == 0 {
+            return inner;
+        }
         let eager = self.eager_neighbors;
         let inner: ContextOutcomeIterator<'static, V, VertexIterator<'static, Self::Vertex>> = if eager {
             Box::new(inner.map(|(ctx, ns)| {
@@ -168,6 +183,9 @@ where
         resolve_info: &ResolveInfo,
     ) -> ContextOutcomeIterator<'static, V, bool> {
         let inner = self.inner.resolve_coercion(contexts, type_name, coerce_to_type, resolve_info);
+        if self.which & 8 == 0 {
+            return inner;
+        }
         Box::new(Chunker::new(inner, self.mode, self.fork()))
     }
 }
